@@ -69,6 +69,33 @@ def run(k: int) -> int:
 		return k
 	except Exception as e:
 		return 0''',
+'''from typing import Generic, TypeVar
+T = TypeVar('T')
+class GBase(Generic[T]):
+	value: T
+	def __init__(self, value: T) -> None:
+		self.value = value
+class IntChild(GBase[int]):
+	def __init__(self, value: int) -> None:
+		super().__init__(value)
+	def twice(self) -> int:
+		return self.value + self.value
+def use_child(k: int) -> int:
+	c = IntChild(k)
+	return c.twice()''',
+'''from typing import Generic, TypeVar
+T = TypeVar('T')
+class GBase2(Generic[T]):
+	value: T
+	def __init__(self, value: T) -> None:
+		self.value = value
+class IntChild2(GBase2[int]):
+	def once(self) -> int:
+		return self.value
+class Other:
+	n: int
+	def __init__(self) -> None:
+		self.n = 1''',
 ]
 
 # programs whose imports form a cycle through the submitted module itself
